@@ -10,15 +10,15 @@ ob = json.load(open(os.path.join(HERE, "lean", "obligations.json")))
 TABLE = {
  "C01": ("8.1", "Lean theorems J2M.C01.generate_sound(_names) (every sample inhabits the type generate infers, with hashStr injectivity J2M.HashInj.hashStr_inj discharging de-duplication) and J2M.C01R.registry_sound / mergeModels_sound / processTy_sound (acceptance is preserved through process_meta_data and merge_models, for graphs with pointers and cycles) over the model of detect/DUnion/merge_field_sets/optimize/resolve/registry; stage-wise differential tie (detect, mkunion, hash, mergefs, optimize, generate, pipeline, render) to the code; falsifier execs the emitted module and checks every sample (structural + pydantic parse_obj)",
          "render-stage soundness (field filters, literal limit, per-framework view of a type) is carried by the render tie (byte-equal text), J2M.C04.typing_denotes and the falsifier, not by one composed theorem; hypotheses: JSON objects have distinct keys, acyclic replaces relation, ReplacesSound (IntString ⊆ FloatString), registry kind names are identifiers; keys in C11's documented domain"),
- "C02": ("8.2", "per-function tightness theorems J2M.C02.* (merge_opt_iff, mkUnion_members_subset/cover, detect_unknown_only_empty, optimize_no_new_atoms, generate_opt_only_if) + tie; falsifier routes every sample value down the real registry graph and checks each position",
-         "the composed statement C02_tight for the whole pipeline is partial: root-level optionality and per-function lemmas are proved, deeper positions rest on the tie and the falsifier"),
+ "C02": ("8.2", "J2M.C02T.generate_tight / C02_tight (position-wise: every type `generate` emits is witnessed by the sample values routed to that position — Optional only with a null or an absent key, every union member / element type / literal value observed, Any only under a container observed empty — for all samples, options and oracles; negative examples show the relation is not trivial) and the per-function lemmas J2M.C02.* + tie; falsifier routes every sample value down the real registry graph and checks each position",
+         "proved for the generator stage (generate_tight); tightness through the registry merge (merge_field_sets on already optional fields) rests on the merge_hasOpt_iff lemma, the tie and the falsifier; `Dict[str, Any]` next to a model is admitted when SOME mapping at the position was empty (the all-empty form is false for the code: dictAny_all_empty_false)"),
  "C03": ("8.3", "theorems on names/layout (J2M.C03/C11/C12: blacklist facts by kernel evaluation over the blacklist extracted from the code on every run, labels never blacklisted, sort_fields required-before-optional, flat layout is a permutation of the registry) + per-program translation validation: emitted text equals the Lean model's text byte for byte, and the falsifier compiles, execs and resolves every annotation",
          "scopeOk over a Python AST model is not formalised; 'executes under CPython' is observed per explored program (T5); nested layout claimed for trees"),
  "C04": ("8.4", "J2M.C04.typing_denotes / imports_exact / field_line_* / alias_iff_renamed / alias_roundtrip / metadata_roundtrip (the annotation text is the print of the denoted typing term; alias and repr texts lex back to the exact key, for all strings) + byte-equal render tie; falsifier compares the frameworks' own field tables with an independent rendering of the registry",
          "CPython/typing/pydantic evaluate the text the way the lexer and Ann models say (validated per explored program)"),
  "C05": ("8.5", "J2M.C05.closure_components / closure_terminates / closure_total (for every symmetric similarity table and every n the grouping loop of merge_models terminates within n+2 passes with exactly the connected components that have an edge) and J2M.C05R.C05_merge_iff / mergeModels_spec / mergeGroup_spec / no_dangling / cmp_any / cmp_symmetric (two models end up in one class iff chained by the configured comparators on their original key sets; merged key set = union; untouched models unchanged; replacement list; every reference registered); tie: closure op on all tables n<=5 (thorough: sample of n=6) and pipeline stage with real comparators at the thresholds; falsifier: union-find vs registry",
          "percent thresholds compared as the decimal fraction they denote (T4: agrees with correctly rounded float division below 2^26 keys)"),
- "C06": ("8.6", "the Lean model is a function of (samples, options): every set-ordered step is proved order-free (J2M.C06.distinctWords_perm, sortStrings_perm, …) or sorted; tie: implementation text equals the model's single answer; falsifier renders each case in fresh processes under 4/16 PYTHONHASHSEED values",
+ "C06": ("8.6", "the Lean model is a function of (samples, options): every set-ordered step is proved order-free (J2M.C06.distinctWords_perm, sortStrings_perm, extractRoot_perm, composeFlat_perm, composeNested_perm, compileImports_perm) and J2M.C06R.render_ptrs_perm composes them: layout + rendered text do not depend on the order of the pointer sets; tie: implementation text equals the model's single answer; falsifier renders each case in fresh processes under 4/16 PYTHONHASHSEED values",
          "site inventory (AST scan of set constructions / next(iter())) compared with the committed table on every run; a new site is reported as a broken correspondence"),
  "C07": ("8.7", "J2M.C07P.generate_perm (sample lists with the same set of samples — permutation or repetition — give types equal up to field order and union member order; 4 kLoC development: mergeFieldSets_equiv, optimize_congr, resolve_perm) and J2M.C07.* per-function invariance + generate/pipeline tie on permuted and duplicated sample lists; falsifier canonicalises the real registry graph (bisimulation from the roots) for all permutations of <=4 samples",
          "proved for the generator (generate_perm); invariance of the registry stage (which models merge) under sample order rests on C05R.C05_merge_iff being a function of key sets + the tie and the falsifier"),
@@ -26,15 +26,15 @@ TABLE = {
          "Raw (what detect/merge produce) is a hypothesis with reachability lemmas (detect_raw, merge_raw)"),
  "C09": ("8.9", "J2M.C09.detect_first_match / resolve_covers / resolve_single_sound / disabled_never_appear(_generate) / int_roundtrip / bool_roundtrip; tie: detect/resolve/generate on the string grammar x registries, exact int/bool parser models vs CPython; falsifier re-runs every registered parser and the render/re-parse round trip",
          "float/date/time/datetime parsers are oracles: their round trip is checked on explored strings only (partial by design)"),
- "C10": ("8.10", "J2M.C10.mkLit_overflow_iff (+limits 20/15 re-checked by the kernel against constants extracted from the code), fold_literals, literal_roundtrip_raw (every string survives json.dumps(ensure_ascii=False) → Python literal), literal_list_split, J2M.C10b.literal_rule / attrs_no_literal / max_literals_zero_no_literal; tie mkunion/optimize/generate/render + lexer vs ast.literal_eval; falsifier evaluates the annotations",
-         "position_rule for a whole position is assembled from these per-stage theorems by the tie, not as one theorem"),
+ "C10": ("8.10", "J2M.C10R.single_field_generate / single_field_annotation(_lib) (end to end for one position, all sample lists: the annotation is Literal[...] listing exactly the sorted distinct plain strings iff each is shorter than 20, at most 15 are distinct, their number is below the limit and the framework uses literals — with the limits instantiated from the constants extracted from the code — and the emitted argument list lexes back to exactly those strings), J2M.C10.mkLit_overflow_iff, fold_literals, literal_roundtrip_raw, literal_list_split, J2M.C10b.attrs_no_literal / max_literals_zero_no_literal; tie mkunion/optimize/generate/render + lexer vs ast.literal_eval; falsifier evaluates the annotations",
+         "single-field positions are proved end to end; positions inside nested/merged models rely on the same per-stage theorems composed by the tie"),
  "C11": ("8.11", "J2M.C11.blacklist_suffix_safe / prepareLabel_not_blacklisted / label facts + J2M.C04.alias_iff_renamed / alias_roundtrip / metadata_roundtrip; tie: render stage with recorded unidecode/inflection/re tables; falsifier reads alias/metadata from the loaded module",
          "domain as documented (keys with an ASCII-transliterable letter, key universe pairwise distinct after folding); folded-equal keys and empty labels are listed known findings"),
- "C12": ("8.12", "J2M.C12.flat_perm (flat layout emits every model exactly once, all graphs), sortFields_partition, nested placement lemmas; tie: pipeline projections flat/nested + render for both layouts; falsifier loads both modules and compares class tables, nesting parents, root first",
-         "C12_layouts_agree for trees is carried by tie + falsifier (class text independence of placement not yet a theorem)"),
+ "C12": ("8.12", "J2M.C12.flat_perm / flat_once / flat_root_first / nested_once / nested_tree and J2M.C12R.layouts_agree(_tree, _rooted) / genClass_decomp (for rooted tree graphs both layouts are assembled from the same class heads — same names, fields, annotations, defaults — the nested text only inserts the children's blocks); tie: pipeline projections flat/nested + render for both layouts; falsifier loads both modules and compares class tables, nesting parents, root first",
+         "hypotheses of layouts_agree_rooted (Tree, distinct indices, a depth rank on the parent relation, fields follow pointers) are those of graphs built from tree-shaped inputs; CPython's reading of the two texts is observed by the falsifier"),
  "C13": ("8.13", "J2M.C13.dict_iff / field_dict_iff / nested_dict_iff / toplevel_always_model / dict_value_sound; tie detect/generate/pipeline with the (pattern,key) match table recorded from re; falsifier recomputes the iff with re per object position",
          "regular-expression matching is an oracle; CLI anchoring checked by the C16 option tie"),
- "C14": ("8.14", "J2M.C14.ctx_restored / history_free_ctx / fresh_process_obs (the reference context is restored on every path; observations of a body depend only on its own slot) + label idempotence; tie: several render jobs on one registry vs the implementation; falsifier: histories of <=4 calls in one process vs each call alone in a fresh process",
+ "C14": ("8.14", "J2M.C14.ctx_restored / history_free_ctx / fresh_process_obs (the reference context is restored on every path; observations of a body depend only on its own slot) and J2M.C14R.render_twice_partial / render_twice_flat / render_twice_tree / cross_framework(_layouts) (rendering a registry again, or for another framework / layout under the same naming options, gives the text of a fresh registry; the unrestricted statement is refuted by a non-tree witness, render_twice_Statement_false); tie: several render jobs on one registry vs the implementation; falsifier: histories of <=4 calls in one process vs each call alone in a fresh process",
          "only the context and name-mutation state are modelled; other process state (third-party caches) is exercised by the falsifier"),
  "C15": ("8.15", "J2M.C15.worker_thread_ok / noninterference / interleaving_irrelevant / exec_other_threads over the per-thread context model; falsifier: 2-8 concurrent pipelines behind a barrier under switchinterval 1e-6 vs solo runs, and calls from a fresh worker thread",
          "partial: CPython's real interleavings, GIL, third-party caches cannot be exhibited by the model; they are exercised, not proved"),
